@@ -149,7 +149,9 @@ def setErr (sentinel : Bool := false) (nosuch : Bool := false) : M Val := do
 def goPanic : M Val := throw ()
 /-- the value is outside the model: the whole run is reported as `unsupported`, never compared -/
 def unsupp : M Val := do
-  modify fun s => { s with unsupported := true }
+  -- also recorded as a (sticky) failure, so that nothing after it is evaluated on a placeholder value: the run is
+  -- reported as `unsupported` whatever follows (a later model panic would otherwise lose the flag with the state)
+  modify fun s => { s with unsupported := true, err := if s.err.isSome then s.err else some ⟨false, false⟩ }
   return .nil
 def hasErr : M Bool := do return (← get).err.isSome
 def logCall (s : String) : M Unit := modify fun st => { st with calls := s :: st.calls }
